@@ -187,7 +187,29 @@ def r20_9(prog: Program, rep):
                    un[0][2] if un else f.node.lineno)
 
 
+def r20_10(prog: Program, rep):
+    """(a) SIBLINGS-AGREE on case folding: has_section compares through lower_key like get/set/items/remove; (b) the value reader
+    strips only the whitespace git's parser knows (SP, TAB, CR, LF): an argument-less strip() also removes VT and FF, which git
+    writes unquoted and reads back."""
+    m = prog.module(CFG_PY)
+    f = m.funcs.get("Config.has_section")
+    if f is None:
+        raise AnalysisError("Config.has_section not found")
+    rep.ob("R20.10", CFG_PY, f.qual, "has_section folds the case of the section name (lower_key) like its sibling accessors",
+           any(isinstance(c, ast.Call) and callee_name(c) == "lower_key" for c in ast.walk(f.node)) or "_values" in norm(f.node, 5000),
+           "an exact comparison: [Remote \"origin\"] as git config writes it is not found under (b'remote', b'origin') while get() returns its url - "
+           "porcelain.remote_add silently overwrites the existing remote", f.node.lineno)
+    p = m.funcs.get("_parse_string")
+    F = Folder(prog, m)
+    strips = [c for c in ast.walk(p.node) if isinstance(c, ast.Call) and isinstance(c.func, ast.Attribute) and c.func.attr == "strip"]
+    bad = [c for c in strips if not c.args or not isinstance(F.try_fold(c.args[0]), bytes) or not set(F.try_fold(c.args[0])) <= set(b" \t\r\n")]
+    rep.ob("R20.10", CFG_PY, p.qual, "the value is stripped of SP, TAB, CR, LF only (git's whitespace)", bool(strips) and not bad,
+           "bytes.strip() without argument also removes VT and FF at the ends of a value; git treats them as data and writes such a value unquoted: "
+           "dulwich reads b'foo' where git wrote b'\\x0cfoo'", (bad or strips or [p.node])[0].lineno)
+
+
 def run(prog: Program, rep, tier="quick"):
+    rep.rule("R20.10", "has_section folds case like its siblings; the value reader strips only git's whitespace")
     rep.rule("R20.9", "readers undo escapes in one tokenising pass; no chained replace() un-escaping that includes the backslash escape")
     rep.rule("R20.8", "line framing by LF only: no splitlines() / argument-less split() in config.py")
     rep.rule("R20.7", "presence of a subsection by identity (empty != absent); the multi-value store's two representations are updated together")
@@ -482,4 +504,5 @@ def run(prog: Program, rep, tier="quick"):
     r20_7(prog, rep)
     r20_8(prog, rep)
     r20_9(prog, rep)
+    r20_10(prog, rep)
     rep.floor("R20.3", 6)
